@@ -50,6 +50,8 @@ def _case(draw):
         "cover_flag": draw(st.booleans()),
         "mixed_layout": draw(st.booleans()),
         "pairwise_screen": draw(retro.pairwise_screen()) if draw(st.booleans()) else None,
+        # a small screen of its own for the combination filter (treatments that occur only in single-agent rows are frequent here)
+        "filter_screen": draw(S.simple_screen(n_samples=(1, 2), n_treat=(2, 6), n_rows=(1, 6), n_plates=(1, 2))),
     }
 
 
@@ -250,22 +252,25 @@ def check_case(case):
                 has_ctl = any(str(n_) == ctl or float(d_) <= 0 for n_, d_ in zip(out.treatment_names[i], out.treatment_doses[i]))
                 require(mask[i] or not has_ctl, "cover.single_agent_revealed", lambda: "row %d contains a control but is not observed" % i)
 
-    # ---- combination filter
-    screen = S.build_screen(sc_any)
-    out = _run("ComboFilter", lambda: filter_dataset_to_treatments_that_appear_in_at_least_one_combo(screen), labels)
-    if out is not None:
-        labels.append("ran:ComboFilter")
-        ctl = sc["control"]
-        def is_ctl(n_, d_):
-            return str(n_) == ctl or float(d_) <= 0
-        in_combo = set()
-        for i in range(screen.size):
-            pairs = list(zip(screen.treatment_names[i], screen.treatment_doses[i]))
-            if not any(is_ctl(n_, d_) for n_, d_ in pairs):
-                in_combo.update((str(n_), float(d_)) for n_, d_ in pairs)
-        keep = [i for i in range(screen.size) if all(is_ctl(n_, d_) or (str(n_), float(d_)) in in_combo for n_, d_ in zip(screen.treatment_names[i], screen.treatment_doses[i]))]
-        exp = [retro.row_key(screen, i, with_plate=True, with_mask=True) for i in keep]
-        got = [retro.row_key(out, i, with_plate=True, with_mask=True) for i in range(out.size)]
-        require(got == exp, "combofilter.exact_rows", lambda: "kept %d rows, expected the %d rows whose treatments all occur in a full combination" % (len(got), len(exp)))
+    # ---- combination filter (on the case's layout and on a small screen of its own)
+    for fsc in (sc_any, case.get("filter_screen")):
+      if fsc is None:
+        continue
+      screen = S.build_screen(fsc)
+      out = _run("ComboFilter", lambda: filter_dataset_to_treatments_that_appear_in_at_least_one_combo(screen), labels)
+      if out is not None:
+          labels.append("ran:ComboFilter")
+          ctl = sc["control"]
+          def is_ctl(n_, d_):
+              return str(n_) == ctl or float(d_) <= 0
+          in_combo = set()
+          for i in range(screen.size):
+              pairs = list(zip(screen.treatment_names[i], screen.treatment_doses[i]))
+              if not any(is_ctl(n_, d_) for n_, d_ in pairs):
+                  in_combo.update((str(n_), float(d_)) for n_, d_ in pairs)
+          keep = [i for i in range(screen.size) if all(is_ctl(n_, d_) or (str(n_), float(d_)) in in_combo for n_, d_ in zip(screen.treatment_names[i], screen.treatment_doses[i]))]
+          exp = [retro.row_key(screen, i, with_plate=True, with_mask=True) for i in keep]
+          got = [retro.row_key(out, i, with_plate=True, with_mask=True) for i in range(out.size)]
+          require(got == exp, "combofilter.exact_rows", lambda: "kept %d rows, expected the %d rows whose treatments all occur in a full combination" % (len(got), len(exp)))
 
     return {"nontrivial": nontrivial, "labels": sorted(set(labels))}
